@@ -436,10 +436,12 @@ fn main() {
                     first.insert(*t, v.clone());
                     let okj = (lo..=hi.min(h.len())).any(|j| spec_view(&h, j) == *v);
                     if !okj {
-                        let class = if torn_class { Some("K-C03-torn") } else { None };
-                        if class.is_some() {
-                            *hist.entry("finding:torn".into()).or_insert(0) += 1;
-                            if !known_seen.insert("K-C03-torn") {
+                        // the first read itself may come after a sink step that rewrote the tree in place
+                        let class = if torn_class { Some("K-C03-torn") } else if o.sink_before[i] && root_at_acq { Some("K-C03-inplace") } else { None };
+                        if let Some(c) = class {
+                            *hist.entry(format!("finding:{}", &c[6..])).or_insert(0) += 1;
+                            interesting = true;
+                            if !known_seen.insert(c) {
                                 continue;
                             }
                         } else {
